@@ -96,6 +96,7 @@ structure View where
   unit : Bytes                      -- `View::unit_`: stored, never read
   agg : Agg
   filter : Option (List Bytes)      -- `none` = `DefaultAttributesProcessor`; `some keys` = `FilteringAttributesProcessor`
+  bounds : Option (List Nat)        -- `HistogramAggregationConfig::boundaries_`; `none` = no aggregation config
   deriving Repr, DecidableEq
 
 structure Registered where
@@ -132,7 +133,7 @@ def matchMeter := matchMeterWith Gen.matchMeterSkipsEmpty
 def applies (r : Registered) (sc : Scope) (i : Instr) : Bool := matchMeter r.msel sc && matchInstrument r.isel i
 
 /-- the view `FindViews` falls back to: `View("")` -/
-def defaultView : View := ⟨Gen.defaultViewName, [], [], .default, none⟩
+def defaultView : View := ⟨Gen.defaultViewName, [], [], .default, none, none⟩
 
 /-- the views `FindViews` hands to its callback, in registration order -/
 def findViews (reg : List Registered) (sc : Scope) (i : Instr) : List View :=
@@ -147,7 +148,11 @@ structure Stream where
   type : IType
   agg : Agg
   keys : List Bytes          -- attribute keys of the exported point, in the order measured
+  bounds : Option (List Nat) -- bucket boundaries of a histogram stream (`none` for the other aggregations)
   deriving Repr, DecidableEq
+
+/-- index of the bucket a value is counted in: the number of boundaries below it (boundaries strictly increasing) -/
+def bucketIndex (bounds : List Nat) (v : Nat) : Nat := (bounds.takeWhile (· < v)).length
 
 /-- attribute keys after the view's processor -/
 def filterKeys (f : Option (List Bytes)) (keys : List Bytes) : List Bytes :=
@@ -161,7 +166,9 @@ def streamOf (i : Instr) (v : View) (keys : List Bytes) : Stream :=
   { name := if v.name.isEmpty then i.name else v.name,
     description := if v.description.isEmpty then i.description else v.description,
     unit := i.unit, type := i.type, agg := resolveAgg v.agg i.type,
-    keys := if i.type.observable then keys else filterKeys v.filter keys }
+    keys := if i.type.observable then keys else filterKeys v.filter keys,
+    -- the view's aggregation config reaches the histogram aggregation of synchronous and (D63 fix) observable instruments alike
+    bounds := if resolveAgg v.agg i.type = .histogram then some (v.bounds.getD Gen.defaultHistogramBounds) else none }
 
 /-- storages `Register…MetricStorage` builds for an instrument: one per view found (all of them receive measurements) -/
 def storages (reg : List Registered) (sc : Scope) (i : Instr) (keys : List Bytes) : List Stream :=
